@@ -2,7 +2,7 @@
     epoch numbers, no skipped-epoch bookkeeping), as Prop ([P_trace]) and as boolean checker
     ([Pb_trace]) with [Pb_trace_sound]; the consistency condition under which the bookkeeping of the
     code follows the schedule. *)
-From Coq Require Import ZArith List Bool Lia.
+From Coq Require Import String ZArith List Bool Lia.
 Import ListNotations.
 Require Import Nib.Lib.Dec Nib.C13.Model.
 Local Open Scope Z_scope.
@@ -50,6 +50,7 @@ Definition spec_step (q : sst) (o : op) : sst * view :=
       let q' := if auth && valid (merge ed (q_params q))
                 then {| q_params := merge ed (q_params q); q_c := q_c q |} else q in (q', quiet_view q')
   | Fund _ => (q, quiet_view q)             (* outside the property (excluded by [hist_ok]) *)
+  | ChangeRoot _ _ => (q, quiet_view q)     (* who the strategic reserve is does not move the schedule *)
   end.
 
 Fixpoint spec_run (q : sst) (ops : list op) : sst * list view :=
@@ -61,6 +62,24 @@ Fixpoint spec_run (q : sst) (ops : list op) : sst * list view :=
 (** the property on a trace (ops with what they published), from schedule state [q] *)
 Definition P_trace (q : sst) (tr : list (op * out)) : Prop :=
   map (fun x => view_of (snd x)) tr = snd (spec_run q (map fst tr)).
+
+(* ---------------------------------------------------------------- who may be the sudo root *)
+
+(** the module account that signs the messages of passed governance proposals (x/gov: the only module account that
+    can ever act as a message sender, hence as sudo root); Gen/C13Oblig.v ties it to the linked cosmos-sdk constant *)
+Definition gov_account : string := "gov"%string.
+
+(** accounts that can operate as sudo root: every ordinary account, and governance.  MsgChangeRoot accepts any
+    address — handing the root to another module account leaves nobody who can sign as root again. *)
+Definition operable (r : root) : bool :=
+  match r with RAcct _ => true | RMod m => String.eqb m gov_account end.
+
+(** the wiring fact under which "everything minted is distributed" is claimed: the bank's blocked-recipient table
+    lets every operable root receive (obligation over the generated table: Gen/C13Oblig.v) *)
+Definition wiring_ok (B : list string) : Prop := forall r, operable r = true -> blocked B r = false.
+Definition wiring_okb (B : list string) : bool := negb (mem gov_account B).
+
+Definition next_root (r : root) (o : op) : root := match o with ChangeRoot true r' => r' | _ => r end.
 
 (* ---------------------------------------------------------------- when the code's counters follow the schedule *)
 
@@ -101,7 +120,8 @@ Definition prov_ok (p : params) (c : Z) : Prop :=
   c / p_epp p < p_max p -> 0 < poly_provision p (c / p_epp p).
 
 (** histories the property quantifies over: day epochs end with consecutive numbers starting at [e];
-    EpochsPerPeriod = E and MaxPeriod = M throughout; whenever an enabled day epoch ends the polynomial is
+    EpochsPerPeriod = E and MaxPeriod = M throughout; the sudo root is handed over (MsgChangeRoot) to operable
+    accounts only; whenever an enabled day epoch ends the polynomial is
     positive at the scheduled period and the proportions are valid; no stray coins in the module account.
     [c] = enabled day epochs so far. *)
 Fixpoint hist_ok (E M : Z) (p : params) (c e : Z) (ops : list op) : Prop :=
@@ -113,6 +133,7 @@ Fixpoint hist_ok (E M : Z) (p : params) (c e : Z) (ops : list op) : Prop :=
           e' = e /\ 0 <= e < two62 /\ (p_enabled p = true -> prov_ok p c /\ dist_ok p) /\
           hist_ok E M p (if p_enabled p then c + 1 else c) (e + 1) r
       | Fund _ => False
+      | ChangeRoot auth rt => (auth = true -> operable rt = true) /\ p_epp p = E /\ p_max p = M /\ hist_ok E M p c e r
       | _ => p_epp (next_params p o) = E /\ p_max (next_params p o) = M /\ hist_ok E M (next_params p o) c e r
       end
   end.
@@ -132,14 +153,15 @@ Definition dist_okb (p : params) : bool :=
   (0 <=? p_staking p) && (0 <=? p_community p) && (0 <=? p_strategic p) &&
   (p_staking p + p_strategic p + p_community p =? PREC).
 
-(** along a trace: parameters follow the toggles / edits, the module balance is what the previous op published *)
-Fixpoint P_dist (p : params) (m0 : Z) (tr : list (op * out)) : Prop :=
+(** along a trace: parameters follow the toggles / edits, the sudo root [rt] follows the root changes, the module
+    balance is what the previous op published; claimed whenever the root is an operable account *)
+Fixpoint P_dist (p : params) (rt : root) (m0 : Z) (tr : list (op * out)) : Prop :=
   match tr with
   | [] => True
   | (o, x) :: r =>
       match o with
-      | EpochEnd true _ => (dist_okb p = true -> dist_step p m0 x) /\ P_dist p (o_module x) r
-      | _ => P_dist (next_params p o) (o_module x) r
+      | EpochEnd true _ => (dist_okb p = true -> operable rt = true -> dist_step p m0 x) /\ P_dist p rt (o_module x) r
+      | _ => P_dist (next_params p o) (next_root rt o) (o_module x) r
       end
   end.
 
@@ -153,13 +175,13 @@ Definition dist_stepb (p : params) (m0 : Z) (x : out) : bool :=
      (o_staking x =? 0) && (o_community x =? 0) && (o_strategic x =? 0) && (o_module x =? m0)
    else true).
 
-Fixpoint Pb_dist (p : params) (m0 : Z) (tr : list (op * out)) : bool :=
+Fixpoint Pb_dist (p : params) (rt : root) (m0 : Z) (tr : list (op * out)) : bool :=
   match tr with
   | [] => true
   | (o, x) :: r =>
       match o with
-      | EpochEnd true _ => (negb (dist_okb p) || dist_stepb p m0 x) && Pb_dist p (o_module x) r
-      | _ => Pb_dist (next_params p o) (o_module x) r
+      | EpochEnd true _ => (negb (dist_okb p) || negb (operable rt) || dist_stepb p m0 x) && Pb_dist p rt (o_module x) r
+      | _ => Pb_dist (next_params p o) (next_root rt o) (o_module x) r
       end
   end.
 
@@ -176,12 +198,12 @@ Proof.
     repeat match goal with X : (_ =? _) = true |- _ => apply Z.eqb_eq in X end. auto.
 Qed.
 
-Lemma Pb_dist_sound tr : forall p m0, Pb_dist p m0 tr = true -> P_dist p m0 tr.
+Lemma Pb_dist_sound tr : forall p rt m0, Pb_dist p rt m0 tr = true -> P_dist p rt m0 tr.
 Proof.
-  induction tr as [|[o x] r IH]; intros p m0 H; [exact I|].
-  destruct o as [[|] e|auth b|auth ed|amt]; cbn [Pb_dist P_dist] in *; try (apply IH; exact H).
+  induction tr as [|[o x] r IH]; intros p rt m0 H; [exact I|].
+  destruct o as [[|] e|auth b|auth ed|amt|auth r']; cbn [Pb_dist P_dist] in *; try (apply IH; exact H).
   apply andb_true_iff in H. destruct H as [H1 H2]. split; [|apply IH; exact H2].
-  intro D. rewrite D in H1. cbn in H1. apply dist_stepb_sound. exact H1.
+  intros D O. rewrite D, O in H1. cbn in H1. apply dist_stepb_sound. exact H1.
 Qed.
 
 (* ---------------------------------------------------------------- the roll-over on the integers, claimed for EVERY state *)
@@ -189,19 +211,21 @@ Qed.
 (** what a minting day-epoch end (number [e]) does to the counters, whatever they were ([per], [sk] before):
     the period advances by one iff, ON THE INTEGERS, e - EPP*per - sk >= EPP.  In particular when the counters are
     ahead of the epoch number (the difference is negative) the period must not advance; the skipped counter is
-    untouched.  (Sizes below 2^62; [m0] = module balance before.) *)
+    untouched.  (Sizes below 2^62; [m0] = module balance before; the sudo root an operable account — with a blocked
+    root the hook returns before the test: Proofs.blocked_root_partial_effects.) *)
 Definition roll_step (p : params) (m0 per sk e : Z) (x : out) : Prop :=
   0 <= m0 -> 0 <= e < two62 -> 0 <= sk < two62 -> 0 < p_epp p < two62 -> 0 <= per -> p_epp p * per < two62 ->
   0 < o_minted x ->
   o_period x = (if p_epp p <=? e - p_epp p * per - sk then per + 1 else per) /\ o_skipped x = sk.
 
-Fixpoint P_roll (p : params) (m0 per sk : Z) (tr : list (op * out)) : Prop :=
+Fixpoint P_roll (p : params) (rt : root) (m0 per sk : Z) (tr : list (op * out)) : Prop :=
   match tr with
   | [] => True
   | (o, x) :: r =>
       match o with
-      | EpochEnd true e => (dist_okb p = true -> roll_step p m0 per sk e x) /\ P_roll p (o_module x) (o_period x) (o_skipped x) r
-      | _ => P_roll (next_params p o) (o_module x) (o_period x) (o_skipped x) r
+      | EpochEnd true e => (dist_okb p = true -> operable rt = true -> roll_step p m0 per sk e x) /\
+                           P_roll p rt (o_module x) (o_period x) (o_skipped x) r
+      | _ => P_roll (next_params p o) (next_root rt o) (o_module x) (o_period x) (o_skipped x) r
       end
   end.
 
@@ -211,13 +235,14 @@ Definition roll_stepb (p : params) (m0 per sk e : Z) (x : out) : bool :=
   then (o_period x =? (if p_epp p <=? e - p_epp p * per - sk then per + 1 else per)) && (o_skipped x =? sk)
   else true.
 
-Fixpoint Pb_roll (p : params) (m0 per sk : Z) (tr : list (op * out)) : bool :=
+Fixpoint Pb_roll (p : params) (rt : root) (m0 per sk : Z) (tr : list (op * out)) : bool :=
   match tr with
   | [] => true
   | (o, x) :: r =>
       match o with
-      | EpochEnd true e => (negb (dist_okb p) || roll_stepb p m0 per sk e x) && Pb_roll p (o_module x) (o_period x) (o_skipped x) r
-      | _ => Pb_roll (next_params p o) (o_module x) (o_period x) (o_skipped x) r
+      | EpochEnd true e => (negb (dist_okb p) || negb (operable rt) || roll_stepb p m0 per sk e x) &&
+                           Pb_roll p rt (o_module x) (o_period x) (o_skipped x) r
+      | _ => Pb_roll (next_params p o) (next_root rt o) (o_module x) (o_period x) (o_skipped x) r
       end
   end.
 
@@ -231,12 +256,12 @@ Proof.
   apply Z.eqb_eq in H1. apply Z.eqb_eq in H2. auto.
 Qed.
 
-Lemma Pb_roll_sound tr : forall p m0 per sk, Pb_roll p m0 per sk tr = true -> P_roll p m0 per sk tr.
+Lemma Pb_roll_sound tr : forall p rt m0 per sk, Pb_roll p rt m0 per sk tr = true -> P_roll p rt m0 per sk tr.
 Proof.
-  induction tr as [|[o x] r IH]; intros p m0 per sk H; [exact I|].
-  destruct o as [[|] e|auth b|auth ed|amt]; cbn [Pb_roll P_roll] in *; try (apply IH; exact H).
+  induction tr as [|[o x] r IH]; intros p rt m0 per sk H; [exact I|].
+  destruct o as [[|] e|auth b|auth ed|amt|auth r']; cbn [Pb_roll P_roll] in *; try (apply IH; exact H).
   apply andb_true_iff in H. destruct H as [H1 H2]. split; [|apply IH; exact H2].
-  intro D. rewrite D in H1. cbn in H1. apply roll_stepb_sound. exact H1.
+  intros D O. rewrite D, O in H1. cbn in H1. apply roll_stepb_sound. exact H1.
 Qed.
 
 (* ---------------------------------------------------------------- boolean checker *)
